@@ -168,3 +168,9 @@ pub fn not_found() -> Response {
         .with_header(HeaderType::ContentType, "text/html")
         .with_bytes(b"<h1>404 Not Found</h1>")
 }
+
+#[cfg(kani)]
+#[allow(unused_imports, dead_code)]
+mod verif_harness {
+    include!(concat!(env!("HUMPHREY_VERIF"), "/kani/in_static.rs"));
+}
